@@ -75,11 +75,64 @@ def concretize(cfg, prefix, syms):
     return (cfg, sc)
 
 
+def gen_ties(r, n):
+    """two select! branches ready at once: a frame and a command (try_send, so it is in the queue at once) arrive before the
+    task runs again; the implementation may take either first - both orders are model behaviours"""
+    out = []
+    while len(out) < n:
+        cfg = cl.default_cfg(r, cap=4, handles=1)
+        pre = cl.connected_prefix()
+        sim = cl.Sim(cfg)
+        sc = list(pre)
+        nid = 0
+        if r.random() < 0.5:
+            sc.append(('S', nid, 'r', 10 * MS, 'f'))
+            nid += 1
+        for st in sc:
+            sim.apply(st)
+        cur = sim.out_tx()
+        nxt = sim.txid
+        frame = ('F', r.choice([nxt, nxt, cur if cur is not None else nxt, (nxt + 1) % 65536]), r.choice('geb'))
+        cmd = r.choice([('S', nid, 'r', 10 * MS, 'x'), ('D', 'x'), ('E', 'x'), ('L', 'max', 'x')])
+        pair = [('~',) + frame, cmd] if r.random() < 0.5 else [('~',) + cmd, frame]
+        tail = [('T', 10 * MS), ('F', sim.txid, 'g'), ('T', 10 * MS)]
+        out.append((cfg, sc + pair + tail))
+    return out
+
+
+def check_ties(ctx, n, cases=None):
+    cases = cases or gen_ties(ctx.rng, n)
+    impl = [cl.canon(x) for x in ctx.harness('client', [cl.to_line(c) for c in cases], shards=4)]
+    va, vb = zip(*[cl.tie_variants(c) for c in cases])
+    if cl.MODEL_OK:
+        ma = [cl.canon(x) for x in ctx.coq_eval(cl.REQUIRES, 'eval_case', [cl.to_coq(c) for c in va], case_type='case')]
+        mb = [cl.canon(x) for x in ctx.coq_eval(cl.REQUIRES, 'eval_case', [cl.to_coq(c) for c in vb], case_type='case')]
+    else:
+        ma = mb = impl
+    bad = 0
+    first = second = differ = 0
+    for c, i, a, b in zip(cases, impl, ma, mb):
+        differ += a != b
+        first += i == a and a != b
+        second += i == b and a != b
+        fails = cl.spec_failures(c, i)
+        if i not in (a, b) or fails:
+            bad += 1
+            if bad == 1:
+                ctx.violation(fails[0] if fails else 'model-differs-from-impl', f'script {cl.to_line(c)} (two branches ready at once): impl={i} is neither order of the model: {a} / {b}' + (f'; violates {fails}' if fails else ''),
+                              {'cases': [cl.case_json(c)], 'impl': i, 'model_orders': [a, b], 'failed_clauses': fails}, no_failing_input=not fails)
+    ctx.oblige('correspondence:select-ties-membership', bad == 0, f'{bad} of {len(cases)} (orders distinguishable in {differ}: first order taken {first}, second {second})')
+    return len(cases), {'tie-scripts': len(cases), 'tie-orders-distinguishable': differ, 'tie-first-order-observed': first, 'tie-second-order-observed': second}
+
+
 def run(ctx):
     if not cl.prepare(ctx):
         return
     r = ctx.rng
     exhaustive = False
+    if ctx.replay and 'cases' in ctx.replay and any(s[0] == '~' for j in ctx.replay['cases'] for s in j['script']):
+        check_ties(ctx, 0, [cl.case_from_json(j) for j in ctx.replay['cases']])
+        return
     if ctx.replay and 'cases' in ctx.replay:
         cases = [cl.case_from_json(j) for j in ctx.replay['cases']]
     else:
@@ -113,13 +166,17 @@ def run(ctx):
         if p:
             n_req += len([s for s in c[1] if s[0] == 'S'])
             n_done += len(p['comp'])
+    n_tie = 0
+    if not ctx.replay:
+        n_tie, tie_cls = check_ties(ctx, 200 if ctx.quick() else 2000)
+        classes.update(tie_cls)
     classes['requests-submitted'] = n_req
     classes['requests-completed'] = n_done
     need = ['result:Shutdown', 'result:NoConnection', 'result:Timeout', 'result:Io', 'result:BadFrame', 'result:Ok', 'step:A', 'step:H', 'step:X', 'style:x', 'style:c', 'task-done']
     if not ctx.replay and any(classes.get(k, 0) < 5 for k in need):
         ctx.oblige('generator-reaches-expected-classes', False, str(classes))
     ctx.coverage.update({
-        'evaluations': len(cases),
+        'evaluations': len(cases) + n_tie,
         'distinct_nontrivial': len(set(cl.to_line(c) for c, i in zip(cases, impl) if '|c' in i)),
         'rule': 'event scripts over the whole alphabet (directed scenarios first, then random scripts of up to 14 steps steered by a replica of the model'
                 + ('; plus every script over the reduced alphabet ' + ' '.join(SYMS) + ' up to length 4, and length 5 after a submit, following `E CO`' if exhaustive else '')
